@@ -111,6 +111,21 @@ func genCase(t *rapid.T) Case {
 		maxd = 6
 	}
 	e := g.expr(1+g.pick(maxd, "depth"), true)
+	if g.pick(25, "longchain") == 0 {
+		// a long chain: 34-60 operands joined by operators of one or several levels; fully parenthesised it nests as
+		// deep as it is long (precedence and associativity hold at every depth)
+		n := 34 + g.pick(27, "chainlen")
+		ops := [][]string{{"+", "-"}, {"*", "div", "mod"}, {"and"}, {"or"}, {"+", "*", "-", "div"}, {"or", "and", "=", "<", "+", "*"}}[g.pick(6, "chainops")]
+		e = g.operand(0, false)
+		for i := 1; i < n; i++ {
+			op := ops[g.pick(len(ops), "chainop")]
+			if g.pick(6, "chainright") == 0 {
+				e = xp.Bin(op, g.operand(0, false), e)
+			} else {
+				e = xp.Bin(op, e, g.operand(0, false))
+			}
+		}
+	}
 	ntok := len(xp.Tokens(e, xp.MinParens))
 	nl := 1 + g.pick(3, "nlayouts")
 	c := Case{Expr: e}
